@@ -139,10 +139,17 @@ def gen(args) -> list:
                 for dd in (1, 29):
                     st = LocalDate(b, mb, dd, cal)
                     for k2 in (1, 2, 30, 60, -1, -30, 299):
-                        r2 = st.plus_days(k2)
-                        out += [r2.year, r2.month, r2.day]
-                    r3 = st.plus_months(1)
-                    out += [r3.year, r3.month, r3.day, cal.get_days_in_month(b, mb), cal.get_days_in_year(b) if rnd.random() < 0 else 0]
+                        try:
+                            r2 = st.plus_days(k2)
+                            out += [r2.year, r2.month, r2.day]
+                        except (OverflowError, ValueError):
+                            out += [0, 0, 0]        # leaves the calendar's range (first / last year): the same in both runs
+                    try:
+                        r3 = st.plus_months(1)
+                        out += [r3.year, r3.month, r3.day]
+                    except (OverflowError, ValueError):
+                        out += [0, 0, 0]
+                    out += [cal.get_days_in_month(b, mb)]
                 return out
 
             try:
